@@ -9,6 +9,7 @@ captions from non-initial decoder states.
 """
 import itertools
 
+from mc import shared
 from mc.acc import Acc, h8
 from mc.ref import cea608 as C
 
@@ -194,7 +195,7 @@ def compare(captions, doubled):
     doc = program_doc(captions, doubled)
     exp = [c for grp in groups for c in grp]
     try:
-        cs = SCCReader().read(doc)
+        cs = shared.obj(SCCReader).read(doc)
         real = list(cs.get_captions("en-US"))
     except Exception as e:  # noqa
         if not exp and type(e).__name__ == "CaptionReadNoCaptions":
@@ -305,9 +306,24 @@ def wrap(rows_events, pre=0, edm=False):
     return list(PREAMBLES[pre]) + rows_events + ([("EDM",)] if edm else []) + [("EOC",)]
 
 
+def reuse_items():
+    """programs for the run in which ONE SCCReader object reads them all, one after the other"""
+    items = []
+    for i, first in enumerate(FIRST):
+        for j, second in enumerate(FIRST[:: 3]):
+            items.append(([wrap(first), wrap(second)], bool((i + j) % 2)))
+        items.append(([wrap(first, (i % 3), bool(i % 2))], bool(i % 2)))
+    return items
+
+
+def reuse_eval(item):
+    v, g, out = compare(item[0], item[1])
+    return [(classify(kind, det, item[0], "reuse-run"), det) for kind, det in (v or [])], out
+
+
 def shards(tier, seed):
     b = bounds(tier)
-    sh = []
+    sh = [{"k": "reuse"}]
     for row in (15, 1, 14):
         for doubled in (False, True):
             for pv_i in range(16):
@@ -368,7 +384,9 @@ def run_shard(d):
     acc = Acc()
     acc.states_set = set()
     k = d["k"]
-    if k == "single-row":
+    if k == "reuse":
+        shared.run(acc, reuse_items(), reuse_eval, sample=lambda it: {"reuse_run_step": it[0], "doubled": it[1]})
+    elif k == "single-row":
         pv = pac_variants(d["row"])[d["pv"]]
         for evs in row_programs(d["row"], d["maxloads"], d["doubled"]):
             if evs[0] != pv:
@@ -467,6 +485,8 @@ def _t(x):
 
 
 def replay(case):
+    if case.get("reuse"):
+        return shared.replay(reuse_items(), reuse_eval, case["index"])
     caps = [[_t(e) for e in c] for c in case["captions"]]
     v, g, _ = compare(caps, case["doubled"])
     if v is None:
